@@ -1008,7 +1008,8 @@ def _simplify_function_sum(call: HplFunctionCall) -> HplExpression:
         n = sum(literals)
         expr: HplExpression = HplLiteral.number(n)
         for v in variables:
-            expr = HplBinaryOperator.addition(v, expr)
+            # narrow a copy: the operator constructor would narrow the caller's set element in place
+            expr = HplBinaryOperator.addition(v.cast(expr.data_type), expr)
         return _simplify(expr)
     if isinstance(arg, HplRange):
         if is_number_literal(arg.min_value) and is_number_literal(arg.max_value):
@@ -1039,7 +1040,8 @@ def _simplify_function_prod(call: HplFunctionCall) -> HplExpression:
         if n == 0:
             return expr
         for v in variables:
-            expr = HplBinaryOperator.multiplication(v, expr)
+            # narrow a copy: the operator constructor would narrow the caller's set element in place
+            expr = HplBinaryOperator.multiplication(v.cast(expr.data_type), expr)
         return _simplify(expr)
     if isinstance(arg, HplRange):
         if is_number_literal(arg.min_value) and is_number_literal(arg.max_value):
